@@ -77,7 +77,6 @@ def showOwner : User → String
 inductive PKind where
   | slow (sid : Option Nat) (slot : Nat)
   | run (sid : Nat) (slot : Nat)   -- handler still running after its POST was abandoned by the client
-  | hang (sid : Nat)       -- a call POSTed to a closing session: refused by the connection, the POST waits for the session to go away
   | del (sid : Nat)
   | cls (sid : Nat)
 
@@ -114,8 +113,6 @@ def completions (s : State) (pend : List Pend) : List String × List Pend × Sta
     match p.kind with
     | .del i => if isLive st i then (done, keep ++ [p], st) else (done ++ [s!"{p.tag}={stDeleted}"], keep, st)
     | .cls i => if isLive st i then (done, keep ++ [p], st) else (done ++ [s!"{p.tag}=1"], keep, st)
-    | .hang i => if isLive st i then (done, keep ++ [p], st)
-                 else (done ++ [s!"{p.tag}=200"], keep, doL st (.postEnd (some i) false))
     | .slow _ _ => (done, keep ++ [p], st)
     | .run _ _ => (done, keep ++ [p], st)) ([], [], s)
 
@@ -193,9 +190,7 @@ def modelOp (d : DState) (toks : List String) : Option MOut :=
         let creator := sid.isNone
         let wasInit := match findSess i st.tbl with | some e => e.initialized | none => false
         let nm := sname i
-        if !deliver && kind != "notif" then
-          some { base with st := st1, head := "pending -", pend := d.pend ++ [⟨tag, .hang i⟩] }
-        else if slow && deliver && wasInit then
+        if slow && deliver && wasInit then
           some { base with st := st1, head := "pending -", log := [s!"{nm}/{user}/tools/call"],
                            pend := d.pend ++ [⟨tag, .slow (some i) nslow⟩] }
         else
@@ -241,14 +236,10 @@ def modelOp (d : DState) (toks : List String) : Option MOut :=
         let rest := d.pend.filter (fun q => q.tag != p.tag)
         match p.kind with
         | .slow (some i) _ =>
-          let closing := match findSess i st.tbl with | some e => e.closing | none => false
-          if closing then
-            -- the connection refuses the answer of a handler that finishes after Close began: the POST
-            -- stays open until the session is gone
-            some { base with st := doL st (.handlerDone i false), pend := rest ++ [⟨p.tag, .hang i⟩] }
-          else
-            some { base with st := doL (doL st (.handlerDone i false)) (.postEnd (some i) false),
-                             done := [s!"{p.tag}=200"], pend := rest }
+          -- (also after `Close` has begun: the answer of a handler that was admitted before the close
+          -- still passes the connection's write gate — F26 — so the POST is answered and ends)
+          some { base with st := doL (doL st (.handlerDone i false)) (.postEnd (some i) false),
+                           done := [s!"{p.tag}=200"], pend := rest }
         | .slow none _ => some { base with st := doL st (.postEnd none false), done := [s!"{p.tag}=200"], pend := rest }
         | .run i _ => some { base with st := doL st (.handlerDone i false), pend := rest }
         | _ => some base
@@ -268,7 +259,6 @@ def modelOp (d : DState) (toks : List String) : Option MOut :=
       | .slow none _ =>
         -- stateless: the POST now waits in `defer session.Close()` for its handler: nothing observable
         some { base with head := "ok -" }
-      | .hang i => some { base with st := doL st (.postEnd (some i) false), head := "ok -", done := [s!"{tag}=200"], pend := rest }
       | _ => some { base with head := "noop -" }
   | ["get", ref, user] => do
     let sid ← parseRef st.next ref
